@@ -332,4 +332,55 @@ def handleSyncRace : Handler := fun i o => do
   return { model := if which == "sync-first" then b else a, agree := which != "neither", spec := spec, specModel := true,
            nontrivial := true, note := why, tags := [s!"sync-race:{which}"], region := none }
 
+/-- projection under which a run driven by the REAL status watcher is compared with the model: when an informer's report
+arrives relative to the start of a wait task is the scheduler's choice, and it decides (i) whether an object is first announced
+`Pending` or found reconciled at once, (ii) the order of the wait results of different objects of one group, and (iii) the
+event index a request is tagged with.  Dropped / sorted: the `Pending` wait events, the order inside a block of consecutive wait
+events, the event index of requests.  Everything else — every request with the store after it, every apply / prune / delete
+event, every wait RESULT, groups, validation and error events, the final store — is compared exactly. -/
+def realProj (r : Json) : Json :=
+  let isWait (e : Json) : Bool := match e with | Json.arr a => a.size == 4 && a[0]! == Json.str "wait" | _ => false
+  let isPending (e : Json) : Bool := match e with | Json.arr a => a.size == 4 && a[0]! == Json.str "wait" && a[3]! == Json.str "Pending" | _ => false
+  let flush (blk : List Json) : List Json := blk.mergeSort (fun a b => a.compress ≤ b.compress)
+  let evs : List Json := match jopt r "events" with | some (Json.arr a) => a.toList.filter (fun e => !isPending e) | _ => []
+  let (done, blk) := evs.foldl (fun (acc : List Json × List Json) e =>
+      if isWait e then (acc.1, e :: acc.2) else (acc.1 ++ flush acc.2 ++ [e], [])) ([], [])
+  let evs' := done ++ flush blk
+  let muts : List Json := match jopt r "muts" with
+    | some (Json.arr a) => a.toList.map (fun m => match m with
+        | Json.arr x => if x.size = 9 then Json.arr (x.set! 7 (Json.num 0)) else m
+        | _ => m)
+    | _ => []
+  (r.setObjVal! "events" (Json.arr evs'.toArray)).setObjVal! "muts" (Json.arr muts.toArray)
+
+/-- domain `sys-real`: histories run with the library's REAL `DefaultStatusWatcher` (informers over the fake cluster's LIST and
+WATCH) instead of the scripted watcher; the scripts of the input describe what kstatus computes for the kinds involved.  The
+run model is the same (`runOne`); agreement is up to `realProj`; the predicates of C13 and C12 judge the implementation's
+stream as it is (grammar, exactly one result per object, channel closed, no request and no WATCH stream left after it). -/
+def handleSysReal : Handler := fun i o => do
+  if let some (Json.str why) := jopt o "crash" then
+    return { model := Json.null, agree := false, spec := false, specModel := true, nontrivial := true,
+             note := "the run did not end: " ++ why, tags := ["crash"], region := none }
+  let pre ← (← asList (← jget i "pre")).mapM manifestOfJson
+  let runs ← (← asList (← jget i "runs")).mapM runOfJson
+  let c0 : Cluster := pre.foldl (fun c m => c.putPre m) {}
+  let (_, stsRev) := runs.foldl (fun (acc : Cluster × List St) r =>
+      let s := runOne acc.1 r
+      (s.cl, s :: acc.2)) (c0, [])
+  let sts := stsRev.reverse
+  let oRuns ← asList (← jget o "runs")
+  let strip (r : Json) : Json := Json.mkObj [("events", (jopt r "events").getD Json.null), ("muts", (jopt r "muts").getD Json.null),
+    ("final", (jopt r "final").getD Json.null), ("closed", (jopt r "closed").getD Json.null), ("late", (jopt r "late").getD Json.null)]
+  let oP := oRuns.map (fun r => realProj (strip (canonRun ((r.setObjVal! "closed" (jboolD r "closed" false)).setObjVal! "late" ((jint r "late").toOption.getD 0)))))
+  let mP := sts.map (fun s => realProj (runJson s))
+  let mj := Json.mkObj [("pre", snapJson (snapOf c0)), ("runs", Json.arr mP.toArray)]
+  let agree := mP == oP && snapJson (snapOf c0) == canonSnap (← jget o "pre")
+  let obsI ← oRuns.mapM obsOfJson
+  let snap0 ← snapOfJson (← jget o "pre")
+  let hist : Spec.History := { pre := pre, snap0 := snap0, runs := runs }
+  let (s13, why13) := Spec.checkHistory "C13" hist obsI
+  let (s12, why12) := Spec.checkHistory "C12" hist obsI
+  return { model := mj, agree := agree, spec := s13 && s12, specModel := true, nontrivial := runs.length ≥ 1,
+           note := (if s13 then "" else why13) ++ (if s12 then "" else why12), tags := ["sys-real"], region := none }
+
 end CliUtils.Drv.SysD
